@@ -26,7 +26,7 @@ Open Scope list_scope.
    common context, and per event log level / context / payload with all field types at every nesting
    depth and explicit enumeration ranges; identifier and file name prefixes; header options.
    valid_v2 = the barectf 2 reading is defined (which implies the shape constraints of
-   schemas/config/2) + hypotheses H2-H6 of V2Sem.v, each shown necessary below by a refutation whose
+   schemas/config/2) + hypotheses H3-H6 of V2Sem.v, each shown necessary below by a refutation whose
    witness the real code reproduces (findings).  "Absent in barectf 2 = absent in the twin" (S17). *)
 Theorem C18_equiv_partial : forall fuel t g,
   v2_sem fuel t = Some g -> valid_v2 fuel t = true ->
@@ -35,7 +35,7 @@ Proof. exact config_equiv. Qed.
 Print Assumptions C18_equiv_partial.
 
 (* the statement at full strength (no valid_v2) is FALSE of the faithful model, hence of /repo:
-   what is missing from C18_equiv_partial is exactly H2-H6, and they cannot be removed *)
+   what is missing from C18_equiv_partial is exactly H3-H6, and they cannot be removed *)
 Theorem C18_equiv_refuted : ~ (forall fuel t g, v2_sem fuel t = Some g -> exists t', conv_config t = Ok t' /\ v3_sem fuel t' = Some g).
 Proof. exact equiv_full_refuted. Qed.
 Print Assumptions C18_equiv_refuted.
@@ -78,24 +78,19 @@ Proof. exact clock_equiv. Qed.
 Print Assumptions C18_equiv_clock.
 
 (* ------------------------------------------------------------------ field types, all nesting depths
-   For every barectf 2 field type node the barectf 2 reading understands (any nesting of arrays and
-   structures; all class spellings; signed / align / base / byte-order / encoding / property-mappings;
-   enumeration members implicit, explicit and ranges; static and dynamic arrays; min-align), provided no
-   structure has `fields: null` (ft_conv_ok, see the refutations below), the converter succeeds and its output, read as barectf 3 says, is the same
-   abstract field type — minus the clock mapping, which barectf 3 does not carry in a field type
-   (erase_clk; the mapping is remembered for the default clock, see C18_default_clock_inference). *)
-Theorem C18_field_type_conv_partial : forall fuel y f,
-  v2_ft fuel y = Some f -> ft_conv_ok fuel y = true ->
+   At FULL strength: for every barectf 2 field type node the barectf 2 reading understands (any nesting of
+   arrays and structures; all class spellings; signed / align / base / byte-order / encoding /
+   property-mappings; enumeration members implicit, explicit and ranges; static and dynamic arrays;
+   min-align; `fields` absent, null or a mapping) the converter succeeds and its output, read as barectf 3
+   says, is the same abstract field type — minus the clock mapping, which barectf 3 does not carry in a
+   field type (erase_clk; the mapping is remembered for the default clock, C18_default_clock_inference).
+   (Until /repo fixes 3990a98 and 616725c this needed two hypotheses, each refuted by a document the real
+   code mishandled; both documents are now regression inputs of the harness.) *)
+Theorem C18_field_type_conv : forall fuel y f,
+  v2_ft fuel y = Some f ->
   exists y', conv_ft y = Ok y' /\ v3_ft fuel y' = Some (erase_clk f).
-Proof. exact ft_equiv. Qed.
-Print Assumptions C18_field_type_conv_partial.
-
-(* without ft_conv_ok (= no structure with `fields: null`) the statement is false: `fields: null` crashes the converter *)
-Theorem C18_field_type_conv_refuted :
-  ~ (forall fuel y f, v2_ft fuel y = Some f -> exists y', conv_ft y = Ok y' /\ v3_ft fuel y' = Some (erase_clk f))
-  /\ (v2_ft 2 w_ft_fields_null = Some (FStruct None []) /\ conv_ft w_ft_fields_null = Crash).
-Proof. exact ft_full_refuted. Qed.
-Print Assumptions C18_field_type_conv_refuted.
+Proof. exact ft_equiv_full. Qed.
+Print Assumptions C18_field_type_conv.
 
 (* ------------------------------------------------------------------ enumeration auto-increment
    For ALL well-shaped `members` lists (bare labels, {label, value: int}, {label, value: [lo, hi]}):
@@ -201,9 +196,10 @@ Print Assumptions C18_version_detect.
    former witness is now inside valid_v2 (regression input of the harness: must generate what its twin generates) *)
 Example C18_former_H1_witness_is_valid : valid_v2 10 w_real_byte_order = true.
 Proof. exact w_real_byte_order_now_valid. Qed.
-Theorem C18_equiv_without_H2_refuted : disagrees w_fields_null /\ conv_config w_fields_null = Crash.   (* `fields: null` *)
-Proof. exact H2_fields_null_refuted. Qed.
-Print Assumptions C18_equiv_without_H2_refuted.
+(* H2 (`fields: null`, header structure without `fields`) is retired: /repo fix 616725c; former witnesses are inside
+   valid_v2 and are regression inputs of the harness *)
+Example C18_former_H2_witnesses_are_valid : valid_v2 10 w_fields_null = true /\ valid_v2 10 w_header_no_fields = true.
+Proof. exact w_fields_null_now_valid. Qed.
 Theorem C18_equiv_without_H3_refuted : disagrees w_seq_num.                 (* packet_seq_num dropped *)
 Proof. exact H3_seq_num_refuted. Qed.
 Print Assumptions C18_equiv_without_H3_refuted.
